@@ -418,7 +418,7 @@ theorem mailboxClose_good {s s1 : Sys} {app mb side : String} {mood : Option Str
         · exact k1.of_eq rfl rfl
         · intro y hy hl m hm
           have hy' : y ∈ (s.stopListeners app mb).conns := by
-            simpa [stopListeners, k3, hconns2] using hy
+            simp only [stopListeners, k3, hconns2] at hy ⊢; exact hy
           rcases mem_stopListeners hy' with ⟨hy0, hc⟩ | ⟨hl', _⟩
           · obtain ⟨a, ha, hb⟩ := h.lh y hy0 hl m hm
             refine ⟨a, ha, ?_⟩
@@ -436,6 +436,488 @@ theorem mailboxClose_good {s s1 : Sys} {app mb side : String} {mood : Option Str
           exact (h.sx hS).closeSide_closeBlock h.db.cinv.npIds app mb side mood
         · rw [stopListeners_cfg, k4, hcfg2]
         · simp only [stopListeners, k3, hconns2]
+
+end
+
+/-! ### claim_nameplate, release_nameplate -/
+
+section
+variable {U : String → Prop} {t : Time} {S : Prop}
+
+/-- the continuation of `claim_nameplate` (commit, `open_mailbox`, crowding check) from a state
+    whose nameplate tables are already in order and where the mailbox row exists: no
+    IntegrityError is possible -/
+theorem claimCont_good {s s1 : Sys} {app mb side : String} {npid : Nat} {r : ClaimRes} (h : s.Good0 U t)
+    (hu : U mb) (hmb : s.db.HasMb app mb) (e : claimCont s app npid mb side t = (s1, r)) :
+    s1.Good0 U t ∧ s1.conns = s.conns ∧ s1.cfg = s.cfg ∧ (∀ a m, s.db.HasMb a m → s1.db.HasMb a m) ∧
+      r ≠ .integrity ∧ r ≠ .reclaimed ∧ (s.db.SExtra' mb → s1.db.SExtra) := by
+  unfold claimCont at e
+  dsimp only at e
+  have hc : s.commit.Good0 U t := h.commit
+  split at e
+  all_goals
+    rename_i s3 e3
+    obtain ⟨k1, k2, k3, k4, k5, k6, k7⟩ := openMailbox_good0 hc hu e3
+    simp only [commit_db, commit_conns, commit_cfg] at k2 k3 k4 k6 k7
+  · exact absurd hmb (k6 trivial).2.1
+  · simp only [Prod.mk.injEq] at e
+    obtain ⟨rfl, rfl⟩ := e
+    exact ⟨k1, k2, k3, k4, by simp, by simp, fun x => k7 x (by simp)⟩
+  · split at e <;>
+    · simp only [Prod.mk.injEq] at e
+      obtain ⟨rfl, rfl⟩ := e
+      exact ⟨k1, k2, k3, k4, by simp, by simp, fun x => k7 x (by simp)⟩
+
+/-- `claim_nameplate`: IntegrityError only when `fresh` exists under another app (and then nothing
+    was written); `ReclaimedError` before any write -/
+theorem claimNameplate_good {s s1 : Sys} {app name side fresh : String} {r : ClaimRes} (h : s.Good U t S)
+    (hu : U fresh) (e : s.claimNameplate app name side t fresh = (s1, r)) :
+    s1.Good U t S ∧ s1.conns = s.conns ∧ s1.cfg = s.cfg ∧ (∀ a m, s.db.HasMb a m → s1.db.HasMb a m) ∧
+      (r = .integrity → ¬ s.db.HasMb app fresh ∧ ∃ m ∈ s.db.mailboxes, m.id = fresh) := by
+  unfold claimNameplate at e
+  split at e
+  · rename_i enp
+    split at e
+    · rename_i e0
+      simp only [Prod.mk.injEq] at e
+      obtain ⟨rfl, rfl⟩ := e
+      exact ⟨h, rfl, rfl, fun _ _ x => x, fun _ => addMailbox_none e0⟩
+    · rename_i s0 e0
+      obtain ⟨g0, c0, f0, d0, sn0, m0, hmb0, np0, x0⟩ := addMailbox_good0 h.toGood0 hu e0
+      have hnp := np0
+      simp only [Chan.npPart, Prod.mk.injEq] at hnp
+      obtain ⟨n1, n2, n3⟩ := hnp
+      have enp0 : s0.db.findNameplate app name = none := by
+        simpa [Chan.findNameplate, n1] using enp
+      have hfresh : (s0.modDb (·.insNameplate app name fresh)).db.findNpSide s0.db.nextNp side = none := by
+        have := g0.db.cinv.bounded.findNpSide_fresh side
+        simpa [Chan.findNpSide, Chan.insNameplate] using this
+      dsimp only at e
+      rw [claimTail_eq, hfresh] at e
+      dsimp only at e
+      have gB : ((s0.modDb (·.insNameplate app name fresh)).modDb
+          (·.insNpSide ⟨s0.db.nextNp, true, side, t⟩)).Good0 U t := by
+        refine ⟨⟨g0.db.cinv.insNew side t enp0 hmb0, g0.db.q.of_mailboxes_eq rfl⟩, g0.d.of_eq rfl rfl,
+          g0.lh.of_eq rfl (fun _ _ x => x)⟩
+      obtain ⟨k1, k2, k3, k4, k5, _, k7⟩ := claimCont_good gB hu (by simpa using hmb0) e
+      refine ⟨⟨k1, ?_⟩, k2.trans c0, k3.trans f0, fun a m x => k4 a m (by simpa using m0 a m x),
+        fun x => absurd x k5⟩
+      intro hS
+      apply k7
+      exact (x0 ((h.sx hS).weaken fresh)).insNew app name fresh side t
+  · rename_i row erow
+    obtain ⟨hrow, ra, rn⟩ := Chan.findNameplate_some erow
+    have hmb : s.db.HasMb app row.mailbox := by
+      obtain ⟨m, hm, e1, e2⟩ := h.db.cinv.npMb row hrow
+      exact ⟨m, hm, e1, e2.trans ra⟩
+    have hu' : U row.mailbox := by
+      obtain ⟨m, hm, e1, _⟩ := hmb
+      rw [← e1]; exact (h.db.q m hm).1
+    rw [claimTail_eq] at e
+    split at e
+    · rename_i eside
+      have gB : (s.modDb (·.insNpSide ⟨row.id, true, side, t⟩)).Good0 U t :=
+        ⟨⟨h.db.cinv.insNpSide (r := ⟨row.id, true, side, t⟩) eside hrow rfl, h.db.q.of_mailboxes_eq rfl⟩,
+          h.d.of_eq rfl rfl, h.lh.of_eq rfl (fun _ _ x => x)⟩
+      obtain ⟨k1, k2, k3, k4, k5, _, k7⟩ := claimCont_good gB hu' (by simpa using hmb) e
+      refine ⟨⟨k1, ?_⟩, k2, k3, k4, fun x => absurd x k5⟩
+      intro hS
+      exact k7 (((h.sx hS).insNpSide _).weaken _)
+    · split at e
+      · obtain ⟨k1, k2, k3, k4, k5, _, k7⟩ := claimCont_good h.toGood0 hu' hmb e
+        exact ⟨⟨k1, fun hS => k7 ((h.sx hS).weaken _)⟩, k2, k3, k4, fun x => absurd x k5⟩
+      · simp only [Prod.mk.injEq] at e
+        obtain ⟨rfl, rfl⟩ := e
+        exact ⟨h, rfl, rfl, fun _ _ x => x, fun x => nomatch x⟩
+
+/-- `release_nameplate`: never fails -/
+theorem releaseNameplate_good {s s1 : Sys} {app name side : String} {t' : Time} {b : Bool} (h : s.Good U t S)
+    (e : s.releaseNameplate app name side t' = (s1, b)) :
+    s1.Good U t S ∧ b = true ∧ s1.conns = s.conns ∧ s1.cfg = s.cfg := by
+  unfold releaseNameplate at e
+  split at e
+  · simp only [Prod.mk.injEq] at e
+    obtain ⟨rfl, rfl⟩ := e
+    exact ⟨h, rfl, rfl, rfl⟩
+  · rename_i np _
+    split at e
+    · simp only [Prod.mk.injEq] at e
+      obtain ⟨rfl, rfl⟩ := e
+      exact ⟨h, rfl, rfl, rfl⟩
+    · rename_i r0 hr0
+      have hp1 : (s.db.unclaim np.id side).PInv := h.db.cinv.toPInv.unclaim np.id side
+      have hn1 : (s.db.unclaim np.id side).NpOk := h.db.cinv.npOk.unclaim np.id side
+      have hq1 : (s.db.unclaim np.id side).MbQ U t := h.db.q.of_mailboxes_eq rfl
+      have g1 : ((s.modDb (·.unclaim np.id side)).commit).Good0 U t :=
+        h.toGood0.modDb_commit _ ⟨.of_pinv_npOk hp1 hn1, hq1⟩ (by simp)
+      have hdbF : (((s.db.unclaim np.id side).delNpSidesOf np.id).delNameplate np.id).CQ U t :=
+        ⟨.of_pinv_npOk (hp1.delById np.id) (hn1.delById np.id), hq1.of_mailboxes_eq rfl⟩
+      have g2 : (((s.modDb (·.unclaim np.id side)).commit).modDb
+          (fun d => (d.delNpSidesOf np.id).delNameplate np.id)).Good0 U t := by
+        refine ⟨by simpa using hdbF, g1.d.of_eq rfl rfl, g1.lh.of_eq rfl (fun a m x => by simpa using x)⟩
+      have hsx : S → (((s.db.unclaim np.id side).delNpSidesOf np.id).delNameplate np.id).SExtra :=
+        fun hS => (h.sx hS).unclaim_delById np.id side
+      dsimp only at e
+      split at e
+      · rename_i hany
+        simp only [Prod.mk.injEq] at e
+        obtain ⟨rfl, rfl⟩ := e
+        refine ⟨⟨g1, ?_⟩, rfl, by simp, by simp⟩
+        intro hS
+        have := (h.sx hS).unclaim_of_any (npid := np.id) (side := side) (by simpa using hany)
+        simpa using this
+      · split at e
+        · split at e
+          · rename_i s3 e3
+            obtain ⟨_, hok⟩ := storeNameplateUsage_spec e3
+            have := hok (by simpa using npSidesOf_unclaim_ne_nil hr0)
+            simp at this
+          · rename_i s3 e3
+            have hu3 := storeNameplateUsage_udbOnly
+              (((s.modDb (·.unclaim np.id side)).commit).modDb (fun d => (d.delNpSidesOf np.id).delNameplate np.id))
+              app (((s.modDb (·.unclaim np.id side)).commit).db.npSidesOf np.id) t' false
+            rw [e3] at hu3
+            dsimp only at hu3
+            simp only [Prod.mk.injEq] at e
+            obtain ⟨rfl, rfl⟩ := e
+            have g3 : s3.Good0 U t := g2.of_udbOnly hu3
+            refine ⟨⟨g3.ucommit.commit, ?_⟩, rfl, ?_, ?_⟩
+            · intro hS
+              simpa [hu3.db] using hsx hS
+            · simp [hu3.conns]
+            · simp [hu3.cfg]
+        · simp only [Prod.mk.injEq] at e
+          obtain ⟨rfl, rfl⟩ := e
+          refine ⟨⟨g2.commit, ?_⟩, rfl, by simp, by simp⟩
+          intro hS
+          simpa using hsx hS
+
+end
+
+/-! ### prune -/
+
+/-- `s'` differs from `s` in the uncommitted tables only (no commit, no event, no connection change) -/
+def PendOnly (s s' : Sys) : Prop := ∃ d u, s' = { s with db := d, udb := u }
+
+theorem PendOnly.refl (s : Sys) : PendOnly s s := ⟨s.db, s.udb, rfl⟩
+theorem PendOnly.trans {a b c : Sys} (h1 : PendOnly a b) (h2 : PendOnly b c) : PendOnly a c := by
+  obtain ⟨d, u, rfl⟩ := h1
+  obtain ⟨d', u', rfl⟩ := h2
+  exact ⟨d', u', rfl⟩
+theorem PendOnly.modDb (s : Sys) (f) : PendOnly s (s.modDb f) := ⟨f s.db, s.udb, rfl⟩
+theorem UdbOnly.pend {s s' : Sys} (h : UdbOnly s s') : PendOnly s s' := by
+  obtain ⟨u, rfl⟩ := h; exact ⟨s.db, u, rfl⟩
+
+section pendOnly
+variable {s s' : Sys} (h : PendOnly s s')
+include h
+theorem PendOnly.disk : s'.disk = s.disk := by obtain ⟨d, u, rfl⟩ := h; rfl
+theorem PendOnly.udisk : s'.udisk = s.udisk := by obtain ⟨d, u, rfl⟩ := h; rfl
+theorem PendOnly.snaps : s'.snaps = s.snaps := by obtain ⟨d, u, rfl⟩ := h; rfl
+theorem PendOnly.conns : s'.conns = s.conns := by obtain ⟨d, u, rfl⟩ := h; rfl
+theorem PendOnly.cfg : s'.cfg = s.cfg := by obtain ⟨d, u, rfl⟩ := h; rfl
+theorem PendOnly.out : s'.out = s.out := by obtain ⟨d, u, rfl⟩ := h; rfl
+end pendOnly
+
+section
+variable {U : String → Prop} {t : Time} {S : Prop}
+
+/-- the nameplate loop of `prune`: never fails; deletes exactly the listed nameplates -/
+theorem pruneNameplates_good {app : String} {now : Time} (l : List Nameplate) :
+    ∀ {s s1 : Sys} {b : Bool}, s.pruneNameplates app now l = (s1, b) →
+      s.db.CQ U t → (S → s.db.SExtra) → (∀ n ∈ l, n ∈ s.db.nameplates) →
+      l.Pairwise (fun a b => ¬ a.id = b.id) →
+      PendOnly s s1 ∧ s1.db.CQ U t ∧ (S → s1.db.SExtra) ∧ b = true ∧ s1.db.mailboxes = s.db.mailboxes ∧
+        (∀ n ∈ s1.db.nameplates, n ∈ s.db.nameplates ∧ ∀ n' ∈ l, ¬ n'.id = n.id) := by
+  induction l with
+  | nil =>
+    intro s s1 b e hdb hsx _ _
+    simp only [pruneNameplates, Prod.mk.injEq] at e
+    obtain ⟨rfl, rfl⟩ := e
+    exact ⟨PendOnly.refl _, hdb, hsx, rfl, rfl, fun n hn => ⟨hn, by simp⟩⟩
+  | cons np rest ih =>
+    intro s s1 b e hdb hsx hmem hpw
+    rw [List.pairwise_cons] at hpw
+    unfold pruneNameplates at e
+    dsimp only at e
+    have hdb1 : ((s.db.delNpSidesOf np.id).delNameplate np.id).CQ U t :=
+      ⟨.of_pinv_npOk (hdb.cinv.toPInv.delById np.id) (hdb.cinv.npOk.delById np.id), hdb.q.of_mailboxes_eq rfl⟩
+    have hsx1 : S → ((s.db.delNpSidesOf np.id).delNameplate np.id).SExtra := fun hS => (hsx hS).delById np.id
+    have hmem1 : ∀ n ∈ rest, n ∈ ((s.db.delNpSidesOf np.id).delNameplate np.id).nameplates := by
+      intro n hn
+      simp only [Chan.delNameplate, Chan.delNpSidesOf, List.mem_filter, decide_not, Bool.not_eq_eq_eq_not,
+        Bool.not_true, decide_eq_false_iff_not]
+      exact ⟨hmem n (by simp [hn]), fun e' => hpw.1 n hn e'.symm⟩
+    have fin : ∀ s0 : Sys, PendOnly s s0 → s0.db = (s.db.delNpSidesOf np.id).delNameplate np.id →
+        s0.pruneNameplates app now rest = (s1, b) →
+        PendOnly s s1 ∧ s1.db.CQ U t ∧ (S → s1.db.SExtra) ∧ b = true ∧ s1.db.mailboxes = s.db.mailboxes ∧
+          (∀ n ∈ s1.db.nameplates, n ∈ s.db.nameplates ∧ ∀ n' ∈ np :: rest, ¬ n'.id = n.id) := by
+      intro s0 p0 e0 er
+      obtain ⟨k1, k2, k3, k4, k5, k6⟩ := ih er (by rw [e0]; exact hdb1) (by rw [e0]; exact hsx1)
+        (by rw [e0]; exact hmem1) hpw.2
+      refine ⟨p0.trans k1, k2, k3, k4, by rw [k5, e0]; rfl, ?_⟩
+      intro n hn
+      obtain ⟨a1, a2⟩ := k6 n hn
+      rw [e0] at a1
+      simp only [Chan.delNameplate, Chan.delNpSidesOf, List.mem_filter, decide_not, Bool.not_eq_eq_eq_not,
+        Bool.not_true, decide_eq_false_iff_not] at a1
+      refine ⟨a1.1, ?_⟩
+      intro n' hn'
+      simp only [List.mem_cons] at hn'
+      rcases hn' with rfl | hn'
+      · exact fun e' => a1.2 e'.symm
+      · exact a2 n' hn'
+    split at e
+    · split at e
+      · rename_i s2 e2
+        obtain ⟨_, hok⟩ := storeNameplateUsage_spec e2
+        have := hok (npSidesOf_ne_nil hdb.cinv.npOk.hasSide (hmem np (by simp)))
+        simp at this
+      · rename_i s2 e2
+        have hu2 := storeNameplateUsage_udbOnly
+          (s.modDb (fun d => (d.delNpSidesOf np.id).delNameplate np.id)) app (s.db.npSidesOf np.id) now true
+        rw [e2] at hu2
+        dsimp only at hu2
+        exact fin s2 ((PendOnly.modDb _ _).trans hu2.pend) (by rw [hu2.db]; rfl) e
+    · exact fin _ (PendOnly.modDb _ _) rfl e
+
+/-- the mailbox loop of `prune`, run when no nameplate references the listed mailboxes any more -/
+theorem pruneMailboxes_good {app : String} {now : Time} (l : List MailboxRow) :
+    ∀ (s : Sys), s.db.CQ U t → (S → s.db.SExtra) →
+      (∀ row ∈ l, ∀ n ∈ s.db.nameplates, ¬ n.mailbox = row.id) →
+      PendOnly s (s.pruneMailboxes app now l) ∧ (s.pruneMailboxes app now l).db.CQ U t ∧
+        (S → (s.pruneMailboxes app now l).db.SExtra) ∧
+        (∀ a m, s.db.HasMb a m → (∀ row ∈ l, ¬ row.id = m) → (s.pruneMailboxes app now l).db.HasMb a m) := by
+  induction l with
+  | nil =>
+    intro s hdb hsx _
+    exact ⟨PendOnly.refl _, hdb, hsx, fun _ _ x _ => x⟩
+  | cons row rest ih =>
+    intro s hdb hsx hno
+    unfold pruneMailboxes
+    dsimp only
+    have hdb1 : (((s.db.delMessagesOf row.id).delMbSidesOf row.id).delMailbox row.id).CQ U t :=
+      ⟨.of_pinv_npOk (hdb.cinv.toPInv.pruneBlock (hno row (by simp))) (hdb.cinv.npOk.of_npPart (by rfl)),
+        hdb.q.delMailbox row.id⟩
+    have hsx1 : S → (((s.db.delMessagesOf row.id).delMbSidesOf row.id).delMailbox row.id).SExtra :=
+      fun hS => (hsx hS).pruneBlock row.id
+    have fin : ∀ s0 : Sys, PendOnly s s0 →
+        s0.db = ((s.db.delMessagesOf row.id).delMbSidesOf row.id).delMailbox row.id →
+        PendOnly s (s0.pruneMailboxes app now rest) ∧ (s0.pruneMailboxes app now rest).db.CQ U t ∧
+        (S → (s0.pruneMailboxes app now rest).db.SExtra) ∧
+        (∀ a m, s.db.HasMb a m → (∀ r ∈ row :: rest, ¬ r.id = m) →
+          (s0.pruneMailboxes app now rest).db.HasMb a m) := by
+      intro s0 p0 e0
+      obtain ⟨k1, k2, k3, k4⟩ := ih s0 (by rw [e0]; exact hdb1) (by rw [e0]; exact hsx1)
+        (by rw [e0]; exact fun r hr n hn => hno r (by simp [hr]) n hn)
+      refine ⟨p0.trans k1, k2, k3, ?_⟩
+      intro a m hb hne
+      apply k4 a m
+      · rw [e0]
+        simp only [Chan.hasMb_delMailbox, Chan.hasMb_delMbSidesOf, Chan.hasMb_delMessagesOf]
+        exact ⟨hb, fun e' => hne row (by simp) e'.symm⟩
+      · exact fun r hr => hne r (by simp [hr])
+    split
+    · exact fin _ ((PendOnly.modDb _ _).trans (storeMailboxUsage_udbOnly _ _ _ _ _ _).pend) rfl
+    · exact fin _ (PendOnly.modDb _ _) rfl
+
+/-- the mailbox-table UPDATE of `prune`'s touch loop -/
+def touchFn (s : Sys) (app : String) (now : Time) (r : MailboxRow) : MailboxRow :=
+  if r.app = app ∧ (s.listeners app r.id) ≠ [] then { r with updated := now } else r
+
+theorem touchListened_db (s : Sys) (app : String) (now : Time) :
+    (s.touchListened app now).db = { s.db with mailboxes := s.db.mailboxes.map (s.touchFn app now) } := rfl
+
+theorem touchFn_keys (s : Sys) (app : String) (now : Time) (r : MailboxRow) :
+    (s.touchFn app now r).id = r.id ∧ (s.touchFn app now r).app = r.app := by
+  unfold touchFn; split <;> simp
+
+theorem touchListened_cq {s : Sys} (h : s.db.CQ U t) (app : String) {now : Time} (hnow : now ≤ t) :
+    (s.touchListened app now).db.CQ U t := by
+  rw [touchListened_db]
+  refine ⟨.of_pinv_npOk (h.cinv.toPInv.mapMailboxes _ (s.touchFn_keys app now)) (h.cinv.npOk.of_npPart (by rfl)),
+    h.q.mapMailboxes _ ?_⟩
+  intro r
+  refine ⟨(s.touchFn_keys app now r).1, ?_⟩
+  unfold touchFn
+  split
+  · exact Or.inr hnow
+  · exact Or.inl rfl
+
+/-- a mailbox some connection listens to is stamped `now` by the touch loop, hence not "old" -/
+theorem not_old_of_listened {s : Sys} (hp : s.db.PInv) {x : Conn} (hx : x ∈ s.conns) (hl : x.listening = true)
+    {a m : String} (ha : x.app = some a) (hm : x.mailbox = some m) (hb : s.db.HasMb a m) {app : String}
+    {now old : Time} (hold : old < now) :
+    ∀ row ∈ ((s.touchListened app now).db.mailboxesOfApp app).filter (fun r => ¬ r.updated > old),
+      ¬ row.id = m := by
+  intro row hrow e
+  simp only [touchListened_db, Chan.mailboxesOfApp, List.mem_filter, List.mem_map, decide_eq_true_eq,
+    decide_not, Bool.not_eq_eq_eq_not, Bool.not_true, decide_eq_false_iff_not] at hrow
+  obtain ⟨⟨⟨r0, hr0, rfl⟩, happ⟩, hupd⟩ := hrow
+  obtain ⟨k1, k2⟩ := s.touchFn_keys app now r0
+  rw [k1] at e
+  rw [k2] at happ
+  have : a = app := hp.mb_app_unique hb ⟨r0, hr0, e, happ⟩
+  subst this
+  have hlis : s.listeners a r0.id ≠ [] := by
+    intro h0
+    have : x.id ∈ s.listeners a r0.id := by
+      simp only [listeners, List.mem_map, List.mem_filter, decide_eq_true_eq]
+      exact ⟨x, ⟨hx, hl, ha, by rw [e]; exact hm⟩, rfl⟩
+    rw [h0] at this
+    simp at this
+  apply hupd
+  unfold touchFn
+  rw [if_pos ⟨happ, hlis⟩]
+  exact hold
+
+/-- `AppNamespace.prune`: never fails; the FOREIGN KEY guard of the mailbox loop holds (every
+    nameplate pointing at an old mailbox was deleted by the nameplate loop); no mailbox with a
+    listener is deleted -/
+theorem prune_good {s s1 : Sys} {app : String} {now old : Time} {b : Bool} (h : s.Good U t S)
+    (hnow : now ≤ t) (hold : old < now) (e : s.prune app now old = (s1, b)) :
+    s1.Good U t S ∧ b = true ∧ s1.conns = s.conns ∧ s1.cfg = s.cfg := by
+  rw [prune_eq] at e
+  dsimp only at e
+  have hdb1 : (s.touchListened app now).db.CQ U t := touchListened_cq h.db app hnow
+  have hm1 : ∀ a m, s.db.HasMb a m ↔ (s.touchListened app now).db.HasMb a m := by
+    intro a m
+    rw [touchListened_db]
+    exact (Chan.hasMb_mapMailboxes _ _ _ _ (s.touchFn_keys app now)).symm
+  have g1 : ((s.touchListened app now).commit).Good U t S := by
+    refine ⟨h.toGood0.modDb_commit _ hdb1 (fun a m => (hm1 a m).1), ?_⟩
+    intro hS
+    simp only [commit_db, touchListened_db]
+    exact (h.sx hS).mapMailboxes _ (fun r => (s.touchFn_keys app now r).1)
+  have hc1 : ((s.touchListened app now).commit).conns = s.conns := by simp [touchListened]
+  have hf1 : ((s.touchListened app now).commit).cfg = s.cfg := by simp [touchListened]
+  generalize hs1 : (s.touchListened app now).commit = sA at e g1 hc1 hf1
+  have hdbA : sA.db = (s.touchListened app now).db := by rw [← hs1]; simp
+  generalize hMb : ((sA.db.mailboxesOfApp app).filter (fun r => ¬ r.updated > old)) = oldMb at e
+  generalize hNp : ((sA.db.nameplatesOfApp app).filter (fun r => r.mailbox ∈ oldMb.map (·.id))) = oldNp at e
+  unfold pruneRest at e
+  have hmemNp : ∀ n ∈ oldNp, n ∈ sA.db.nameplates := by
+    intro n hn
+    rw [← hNp] at hn
+    exact (List.mem_filter.1 (List.mem_filter.1 hn).1).1
+  have hpwNp : oldNp.Pairwise (fun a b => ¬ a.id = b.id) := by
+    rw [← hNp]
+    exact List.Pairwise.filter _ (List.Pairwise.filter _ g1.db.cinv.npIds)
+  split at e
+  · rename_i s2 e2
+    have := (pruneNameplates_good oldNp e2 g1.db g1.sx hmemNp hpwNp).2.2.2.1
+    simp at this
+  · rename_i s2 e2
+    obtain ⟨p2, hdb2, hsx2, _, hmb2, hnp2⟩ := pruneNameplates_good oldNp e2 g1.db g1.sx hmemNp hpwNp
+    have hguard : ∀ row ∈ oldMb, ∀ n ∈ s2.db.nameplates, ¬ n.mailbox = row.id := by
+      intro row hrow n hn e'
+      obtain ⟨hnA, hnot⟩ := hnp2 n hn
+      have hrow' := hrow
+      rw [← hMb] at hrow'
+      simp only [Chan.mailboxesOfApp, List.mem_filter, decide_eq_true_eq] at hrow'
+      have happ : n.app = app :=
+        g1.db.cinv.toPInv.np_app_of_mailbox ⟨row, hrow'.1.1, rfl, hrow'.1.2⟩ hnA e'
+      apply hnot n _ rfl
+      rw [← hNp]
+      simp only [Chan.nameplatesOfApp, List.mem_filter, decide_eq_true_eq, List.mem_map]
+      exact ⟨⟨hnA, happ⟩, row, hrow, e'.symm⟩
+    obtain ⟨p3, hdb3, hsx3, hm3⟩ := pruneMailboxes_good (app := app) (now := now) oldMb s2 hdb2 hsx2 hguard
+    have p' := p2.trans p3
+    have hlh : ∀ s4 : Sys, s4.conns = sA.conns → s4.db = (s2.pruneMailboxes app now oldMb).db → s4.LHandleOk := by
+      intro s4 c4 d4 x hx hl m hm
+      rw [c4, hc1] at hx
+      obtain ⟨a, ha, hb⟩ := h.lh x hx hl m hm
+      refine ⟨a, ha, ?_⟩
+      rw [d4]
+      apply hm3 a m
+      · have := (hm1 a m).1 hb
+        rw [← hdbA] at this
+        obtain ⟨r, hr, er⟩ := this
+        exact ⟨r, by rw [hmb2]; exact hr, er⟩
+      · have := not_old_of_listened h.db.cinv.toPInv hx hl ha hm hb (app := app) (now := now) hold
+        rw [← hdbA, hMb] at this
+        exact this
+    dsimp only at e
+    split at e
+    · simp only [Prod.mk.injEq] at e
+      obtain ⟨rfl, rfl⟩ := e
+      have gd : ((s2.pruneMailboxes app now oldMb).commit).DGood U t :=
+        DGood.commit (g1.d.of_eq p'.disk p'.snaps) hdb3
+      refine ⟨?_, rfl, ?_, ?_⟩
+      · split
+        · refine ⟨⟨by simpa using hdb3, gd.ucommit, hlh _ (by simp [p'.conns]) (by simp)⟩, by simpa using hsx3⟩
+        · refine ⟨⟨by simpa using hdb3, gd, hlh _ (by simp [p'.conns]) (by simp)⟩, by simpa using hsx3⟩
+      · split <;> simp [p'.conns, hc1]
+      · split <;> simp [p'.cfg, hf1]
+    · rename_i hne
+      simp only [ne_eq, not_or, Decidable.not_not] at hne
+      obtain ⟨rfl, rfl⟩ := hne
+      simp only [pruneNameplates, Prod.mk.injEq] at e2
+      obtain ⟨rfl, _⟩ := e2
+      simp only [pruneMailboxes, Prod.mk.injEq] at e
+      obtain ⟨rfl, rfl⟩ := e
+      exact ⟨g1, rfl, hc1, hf1⟩
+
+theorem pruneApps_good {now old : Time} (hnow : now ≤ t) (hold : old < now) (l : List String) :
+    ∀ {s s1 : Sys} {b : Bool}, s.Good U t S → s.pruneApps now old l = (s1, b) →
+      s1.Good U t S ∧ b = true ∧ s1.conns = s.conns ∧ s1.cfg = s.cfg := by
+  induction l with
+  | nil =>
+    intro s s1 b h e
+    simp only [pruneApps, Prod.mk.injEq] at e
+    obtain ⟨rfl, rfl⟩ := e
+    exact ⟨h, rfl, rfl, rfl⟩
+  | cons app rest ih =>
+    intro s s1 b h e
+    unfold pruneApps at e
+    split at e
+    · rename_i s2 e2
+      have := (prune_good h hnow hold e2).2.1
+      simp at this
+    · rename_i s2 e2
+      obtain ⟨k1, _, k3, k4⟩ := prune_good h hnow hold e2
+      obtain ⟨j1, j2, j3, j4⟩ := ih k1 e
+      exact ⟨j1, j2, j3.trans k3, j4.trans k4⟩
+
+/-! ### usage-only functions, expire -/
+
+theorem Good.dumpStats {s : Sys} (h : s.Good U t S) (now : Time) : (s.dumpStats now).Good U t S := by
+  unfold Sys.dumpStats
+  split
+  · exact (h.modUdb _).ucommit
+  · exact h
+
+@[simp] theorem dumpStats_conns (s : Sys) (now : Time) : (s.dumpStats now).conns = s.conns := by
+  unfold Sys.dumpStats; split <;> simp
+
+theorem Good.logClientVersion {s : Sys} (h : s.Good U t S) (a sd t' i v) :
+    (s.logClientVersion a sd t' i v).Good U t S := by
+  unfold Sys.logClientVersion
+  split
+  · exact (h.modUdb _).ucommit
+  · exact h
+
+@[simp] theorem logClientVersion_conns (s : Sys) (a sd t' i v) :
+    (s.logClientVersion a sd t' i v).conns = s.conns := by
+  unfold Sys.logClientVersion; split <;> simp
+
+/-- one firing of `expire()`: the sweep itself cannot fail (`pruneApps` returns `true`) -/
+theorem expire_good {s : Sys} (h : s.Good U t S) {now : Time} (hnow : now ≤ t) (fault : Bool) :
+    (s.expire now fault).Good U t S ∧ (s.expire now fault).conns = s.conns ∧
+      (s.expire now fault).cfg = s.cfg := by
+  unfold Sys.expire
+  dsimp only
+  have hold : now - Generated.expirationTicks < now := Int.sub_lt_self now expirationTicks_pos
+  have h0 := h.emit (.fired now (now - Generated.expirationTicks))
+  split
+  · exact ⟨(h0.emit _).dumpStats now, by simp [emit], by simp⟩
+  · split
+    · rename_i s1 e
+      obtain ⟨k1, _, k3, k4⟩ := pruneApps_good hnow hold _ h0 e
+      exact ⟨k1.dumpStats now, by simpa [emit] using k3, by simpa using k4⟩
+    · rename_i s1 e
+      obtain ⟨k1, k2, k3, k4⟩ := pruneApps_good hnow hold _ h0 e
+      simp at k2
 
 end
 
